@@ -9,7 +9,7 @@ from hypothesis import strategies as st
 from ECAgent.Core import Agent, Component, Model, System
 from ECAgent.Collectors import AgentCollector, FileCollector
 from vf.engine import Violation, InvalidCase
-from vf.fixtures import check, sized_lists
+from vf.fixtures import check, sized_lists, wone_of
 
 PROPERTY = "C17"
 BUDGET = {"quick": 2000, "thorough": 6000}
@@ -222,12 +222,12 @@ def run_case(case):
 
 def strategy(tier):
     nd = st.builds(lambda s, e, f: {"start": s, "end": (None if e is None else s + e), "freq": f},
-                   st.integers(-2, 4), st.one_of(st.none(), st.integers(-1, 8)), st.sampled_from([1, 2, 2, 3]))
-    win = st.one_of(st.just({"start": 0, "end": None, "freq": 1}), nd, nd,
+                   st.integers(-2, 4), wone_of(st.none(), st.integers(-1, 8)), st.sampled_from([1, 2, 2, 3]))
+    win = wone_of(st.just({"start": 0, "end": None, "freq": 1}), nd, nd,
                     st.builds(lambda s, e, f: {"start": s, "end": (None if e is None else s + e), "freq": f},
-                              st.integers(-2, 4), st.one_of(st.none(), st.integers(-1, 8)), st.sampled_from([1, 1, 2, 3])))
-    val = st.one_of(st.none(), st.integers(-3, 3), st.just(0))
-    pop_op = st.one_of(st.builds(lambda v: {"op": "join", "val": v}, val), st.builds(lambda v: {"op": "join", "val": v}, val),
+                              st.integers(-2, 4), wone_of(st.none(), st.integers(-1, 8)), st.sampled_from([1, 1, 2, 3])))
+    val = wone_of(st.none(), st.integers(-3, 3), st.just(0))
+    pop_op = wone_of(st.builds(lambda v: {"op": "join", "val": v}, val), st.builds(lambda v: {"op": "join", "val": v}, val),
                        st.builds(lambda k: {"op": "leave", "k": k}, st.integers(0, 6)),
                        st.builds(lambda k, v: {"op": "set", "k": k, "val": v}, st.integers(0, 6), st.integers(-3, 9)))
     sched = st.dictionaries(st.integers(0, 9).map(str), st.lists(pop_op, min_size=1, max_size=3), max_size=5)
@@ -239,4 +239,4 @@ def strategy(tier):
     filec = st.fixed_dictionaries({
         "kind": st.just("file"), "ks": st.lists(st.integers(0, 3), min_size=1, max_size=8), "write_count": st.integers(0, 5),
         "window": win, "steps": st.integers(1, 25)})
-    return st.one_of(agent, agent, filec)
+    return wone_of(agent, agent, filec)
